@@ -60,7 +60,8 @@ def broker_from_model(m, symbol="VC"):
     fees = BrokerFees(fixed=m.get("commission", 0.0), proportional=m.get("fee_prop", 0.0), markup=m.get("markup", 0.0))
     ex.process_EventNBBO(EventNBBO(T0, fees.interest_rate, m.get("rate", 0.0), m.get("rate", 0.0)))
     if "bid" in m:
-        ex.process_EventNBBO(EventNBBO(T0, c, m["bid"], m["ask"]))
+        nan = float("nan")
+        ex.process_EventNBBO(EventNBBO(T0, c, nan if m.get("bid_nan") else m["bid"], nan if m.get("ask_nan") else m["ask"]))
     b = Broker(ex, base_currency=cash, deposit=m.get("cash0", 100.0), fees=fees, epsilon=m.get("eps", 1e-7))
     if "q0" in m:
         b._holdings_quantity[c] = m["q0"]
